@@ -43,20 +43,20 @@ var weirdVocab = []string{"p", "r", "t", "tbl", "tr", "tc", "pPr", "rPr", "tblPr
 	"oMath", "oMathPara", "oMathParaPr", "f", "num", "den"}
 
 var sensibleKids = map[string][]string{
-	"body": {"p", "p", "p", "tbl", "sectPr", "bookmarkStart", "sdt"},
-	"p":    {"pPr", "r", "r", "r", "hyperlink", "bookmarkStart", "oMath", "oMathPara"},
-	"oMathPara": {"oMathParaPr", "oMath", "oMath"},
-	"oMath":     {"r", "f", "t", "oMath"},
-	"f":         {"num", "den"},
-	"num":       {"r"},
-	"den":       {"r"},
-	"r":    {"rPr", "t", "t", "br", "drawing", "fldChar", "instrText"},
-	"tbl":  {"tblPr", "tblGrid", "tr", "tr"},
-	"tr":   {"trPr", "tc", "tc", "tc"},
-	"tc":   {"tcPr", "p", "p", "tbl"},
-	"pPr":  {"jc", "spacing", "ind", "numPr", "pBdr", "tabs", "sectPr"},
-	"rPr":  {"b", "sz"},
-	"tcPr": {"gridSpan", "vMerge", "tcW"},
+	"body":        {"p", "p", "p", "tbl", "sectPr", "bookmarkStart", "sdt"},
+	"p":           {"pPr", "r", "r", "r", "hyperlink", "bookmarkStart", "oMath", "oMathPara"},
+	"oMathPara":   {"oMathParaPr", "oMath", "oMath"},
+	"oMath":       {"r", "f", "t", "oMath"},
+	"f":           {"num", "den"},
+	"num":         {"r"},
+	"den":         {"r"},
+	"r":           {"rPr", "t", "t", "br", "drawing", "fldChar", "instrText"},
+	"tbl":         {"tblPr", "tblGrid", "tr", "tr"},
+	"tr":          {"trPr", "tc", "tc", "tc"},
+	"tc":          {"tcPr", "p", "p", "tbl"},
+	"pPr":         {"jc", "spacing", "ind", "numPr", "pBdr", "tabs", "sectPr"},
+	"rPr":         {"b", "sz"},
+	"tcPr":        {"gridSpan", "vMerge", "tcW"},
 	"tblGrid":     {"gridCol", "gridCol"},
 	"sectPr":      {"pgSz", "pgMar", "headerReference"},
 	"drawing":     {"inline", "anchor"},
